@@ -36,6 +36,14 @@ CLAIMED = {
          "Every interleaving of 2-3 readers and the handle thread over the extracted programs; the schedule-independent NonReentrant rule is checked on every recorded acquisition, so the hazard is caught whether or not a run deadlocks."),
  "C18": ("model_checking", "5 C18", "the same TLC-validated script under every configuration (two runs, std::fs::File, chunked/Interrupted in-memory backends, several max_buffer_size values, V3/V4); Trace_Config (TLA+) requires identical results and byte-identical images within a version/buffer group",
          "Every run is judged against the same deterministic model, so logical outcomes coincide; byte identity is compared step by step with pinned storage times."),
+ "C04": ("model_checking", "5 C04", "Gen_Layout (TLA+ 'foreign writer') enumerates / samples legal physical layouts of logical contents with TLC; an independent builder serialises them; TLC trace validation (Trace_File: WF, Abs, CfbTree) judges what the library exposes after strict and permissive open and what it writes afterwards",
+         "All layouts of the smallest contents, seeded samples of larger ones: any slot assignment with gaps, any valid red-black shape, any sector and mini-sector placement; lookups under case variants and a mutation history on every image."),
+ "C05": ("exploration", "5 C05", "Gen_Corrupt (TLA+) enumerates every field-level corruption of TLC-generated layouts; each damaged image gets every read-only call under catch_unwind, a watchdog and a counting allocator; Trace_Robust (TLA+) states the verdict (no panic, memory bound); plus crash corpus and seeded byte flips",
+         "The structured part of 'any byte string' (all single field corruptions x value classes, thorough: sampled pairs) is enumerated from the specification; unstructured bytes are a seeded supplement; termination, panics and memory are observed by monitors."),
+ "C11": ("exploration", "5 C11", "Gen_Corrupt (TLA+) corruptions that survive permissive open x mutation scripts, under catch_unwind and a per-case watchdog; Trace_Robust states the verdict; coverage classified by corrupted site",
+         "Every single field corruption x scripts covering all mutation steps (thorough: every step singly and sampled ordered pairs, sampled pairs of corruptions)."),
+ "C16": ("model_checking", "5 C16", "part 1: strict Ok => permissive Ok with the identical dump on every image (Trace_File / Trace_Robust); part 2: Gen_Deviate (TLA+) injects every documented tolerated deviation at every applicable place of TLC-generated layouts, singly and in independent pairs; Trace_File requires permissive = undamaged content and strict = rejected",
+         "Deviation x place coverage comes from the specification; expectations are stated in the trace validator, not in the harness."),
 }
 
 HOOK_COMMITS = ["8fb4cf3"]
